@@ -406,6 +406,8 @@ type psChild struct {
 	ready   map[int]chan struct{} // closed when the Sub call that creates channel c has returned
 	cready  map[int]chan struct{} // closed when clone w exists
 	pending int64                 // calls in flight
+	spawned int64                 // calls started in goroutines of their own
+	begun   int64                 // … of which the goroutine has started running
 	lastEv  int64                 // unix nanos of the last event
 	live    bool                  // scenario family `live`: every subscriber is received from without limit
 }
@@ -473,8 +475,11 @@ func pubsubChild(args []string) int {
 			return
 		}
 		atomic.AddInt64(&p.pending, 1)
+		atomic.AddInt64(&p.spawned, 1)
 		go func() {
 			defer atomic.AddInt64(&p.pending, -1)
+			atomic.AddInt64(&p.begun, 1) // the goroutine runs: its first statement stamps the invocation
+			atomic.StoreInt64(&p.lastEv, time.Now().UnixNano())
 			f()
 		}()
 	}
@@ -655,7 +660,9 @@ func (p *psChild) settle(quiet time.Duration) {
 	deadline := time.Now().Add(2 * time.Second)
 	for time.Now().Before(deadline) {
 		last := atomic.LoadInt64(&p.lastEv)
-		if time.Since(time.Unix(0, last)) >= quiet {
+		// a goroutine that has been spawned but not yet scheduled has not even stamped its invocation: silence does not mean settled
+		// (on a loaded machine `exit ok` was stamped before a late `pubinv`: a trace the model rightly rejects - a false correspondence alarm)
+		if atomic.LoadInt64(&p.begun) == atomic.LoadInt64(&p.spawned) && time.Since(time.Unix(0, last)) >= quiet {
 			return
 		}
 		time.Sleep(quiet / 4)
